@@ -90,7 +90,7 @@ BOUNDS = {
     "over {machine, model, constructor listener, late listener}; `on_enter_state` and `after_go` provided by 3 sets (machine; model + both listeners; late listener only); the "
     "late listener attached before event 0, 1 or 2, once, twice in one call, or again before the next event; a second instance of the class with its own "
     "listener must stay silent; a listener added to a shallow copy must not reach a later deep copy of the original; the guard also written as the expression 'ok1 and ok2'; guard values symbolic per provider; in half of the sync tasks the guard and action names start with an underscore (`_ok1`, `_act`); a separate scenario: 2-3 instances of one class whose constructor listener / model has plain or coroutine callbacks, in 4 creation orders, each driven afterwards; in half of the tasks the model class derives from statemachine.model.Model; a guard given as a plain data attribute (None at attachment, re-assigned before each event) on model / listeners; a variant whose listeners all compare equal and are falsy (define __len__ returning 0); variant in which the late listener's methods are coroutine functions on an otherwise sync machine.",
-    "thorough": "7 guard provider sets x 4 action provider sets (sync late listener), 4 x 2 (async late listener), 6 x 6 convention-provider sets, every attach time x repetition.",
+    "thorough": "7 guard provider sets x 4 action provider sets (sync late listener), 4 x 2 (async late listener), 4 x 4 convention-provider sets (incl. 'provided by nobody'), every attach time x repetition.",
 }
 OUTSIDE = "callables and properties passed by reference (late listeners resolve names only, documented); more than one late listener"
 OBLIGATIONS = ["providers-per-instance", "shallow-copy-listener-isolated", "attribute-guard-blocked", "attribute-guard-passed", "late-listener-called", "guard-conjunction-blocked", "guard-on-late-listener", "reattached", "second-instance-silent", "model-provider"]
@@ -177,7 +177,7 @@ def run(ctx, params):
     am = base_am(with_flag, expr)
     if private:
         am = json.loads(json.dumps(am).replace('"ok1"', '"_ok1"').replace('"act"', '"_act"').replace("ok1 and ok2", "_ok1 and _ok2"))
-    conv_pool = [CONV_MENUS[i] for i in ((0, 2, 4, 6, 7, 8) if not quick else (0, 4, 7))]
+    conv_pool = [CONV_MENUS[i] for i in ((0, 4, 7, 8) if not quick else (0, 4, 7))]
     if expr:
         conv_pool = [CONV_MENUS[0]]
     enter_prov = conv_pool[ctx.choose(len(conv_pool), "enter_menu")] if not with_flag else []
@@ -285,6 +285,10 @@ def run(ctx, params):
         shape = "late-async-listener-on-sync-machine" if late_async and attached and methods["listener1"] else "sync"
         try:
             new = accept_or_mismatch(acc, cur, ["go"], out, f"{shape}", script.log)
+            if sm.current_state.id != new:
+                # the log was acceptable but the machine ended elsewhere (possible when the transitions involved have no
+                # callbacks at all): judged like any other mismatch, i.e. it goes through the diagnoses below first
+                raise Mismatch(f"wrong-state:{shape}", f"expected {new}, got {sm.current_state.id}")
         except Mismatch as mm:
             if late_async and attached and methods["listener1"]:
                 # does the log fit "the late listener's coroutine callbacks are called but never awaited" - i.e. its actions
@@ -297,8 +301,8 @@ def run(ctx, params):
                 alt.forced_reads[("listener1", G1)] = True  # a coroutine object is truthy
                 alt.unless_anyfalsy_group = {p for p in feats[G1] if p != "listener1"}
                 try:
-                    alt.call(cur, ["go"], ("ret", ANY) if out[0] == "ret" else out)  # un-awaited coroutines may sit in the result
-                    fits = True
+                    alt_new = alt.call(cur, ["go"], ("ret", ANY) if out[0] == "ret" else out)  # un-awaited coroutines may sit in the result
+                    fits = alt_new == sm.current_state.id
                 except Exception:
                     fits = False
                 if fits:
@@ -313,8 +317,8 @@ def run(ctx, params):
                 alt.forced_reads = dict(forced)
                 alt.unless_anyfalsy_group = set(ctor_group)
                 try:
-                    alt.call(cur, ["go"], out)
-                    fits = True
+                    alt_new = alt.call(cur, ["go"], out)
+                    fits = alt_new == sm.current_state.id
                 except Exception:
                     fits = False
                 if fits:
@@ -323,7 +327,6 @@ def run(ctx, params):
                         f"`unless=ok1` with the name on {feats[G1]}: the name is not truthy on every provider, yet c->a was blocked because the late listener's own value is truthy ({mm.msg[:160]})",
                     )
             raise
-        ctx.check(sm.current_state.id == new, f"wrong-state:{shape}", f"expected {new}, got {sm.current_state.id}")
         for rec in script.log:
             if rec[0] == "cb":
                 if rec[4]["kwargs"].get("machine") is not sm:
